@@ -17,6 +17,8 @@ func init() { checks["C13"] = c13 }
 var c13Hostile = []string{`"`, `'`, "`", `\`, `\\`, `\"`, `\n`, `\t`, `\s`, `A`, `%`, `%%`, `%v`, `%d`, `%s`, `%!`, `%!v(MISSING)`, `100%`, `{`, `}`, `{{`, `}}`, `{{notaplaceholder}}`, `{{ }}`, `{ {x} }`,
 	`$`, `$message`, `$result`, `$node`, `$traceNode`, `#`, `# comment`, `]`, `[`, `)`, `(`, `,`, `;`, `:`, `: `, ` - `, `|`, `>`, `&`, `*`, `!`, `?`, `@`, `=`, `:=`, `==`, `é`, `☃`, `漢字`, `😀`, "‏", "é", " ", `<`, `>`, `&amp;`, `</script>`,
 	`") := x`, `"]`, `"})`, `true`, `null`, `0`, `-1`, `1e9`, `~`, `not`, `default`, `package`, `import`, `some`, `every`, `in`, `with`, `as`, `else`, `report`, `violation["x"]`, `input`, `data`, `trace(`, `error(`,
+	// text that looks like an escape sequence of JSON / Go / YAML
+	`\u003c`, `\u003e`, `\u0026`, `\u0000`, `\x41`, `\U0001F600`, `\a`, `\0`, `\/`,
 	// control and other non-printable characters (an ANSI colour sequence in a message, a bell in a name ...): escapes differ between Go, JSON, YAML and Rego
 	"\a", "\v", "\f", "\b", "\x1b[31m", "\x1b[0m", "\x7f", "\x01", "\x1f", "\U000E0001", "\ufeff", "\u2028", "\u2029", "\u0085", "\u00a0", "\U0001F3F4\U000E0067"}
 
